@@ -44,6 +44,12 @@ def gen_cases(spec, ctx):
             # second file: same type, or another data type
             tb = ta if r.random() < 0.5 else (r.choice(formats.DATA_TYPES) if ta in formats.DATA_TYPES else ta)
             a, b = formats.gen_pair_for_type(r, ta, equal=r.random() < 0.15)
+            if ta in ("json", "json5", "yaml", "pickle") and tb in ("json", "json5", "yaml", "pickle") and r.random() < 0.12:
+                # documents that consist of a single scalar (the root of the tree is a leaf)
+                a = r.choice([7, "draft", True, 2.5, "x y", 0])
+                b = a if r.random() < 0.2 else r.choice([8, "final", False, 2.75, "x z", "0"])
+                if ctx is not None:
+                    ctx.count("documents_that_are_a_single_scalar")
             if tb != ta:
                 pass     # same data pair, second file written in another format
             for sa, sb in itertools.product(SELECT, repeat=2):
